@@ -206,6 +206,20 @@ func (s *Server) Run(addr string, opt ...Option) error {
 		localConnID := connID
 		s.connWg.Add(1)
 		go func() {
+			// a client must not be able to keep the server from stopping: when
+			// the server is stopped, pending reads and writes on the accepted
+			// conn are unblocked by an immediate deadline (until the conn has
+			// been torn down).
+			connDone := make(chan struct{})
+			defer close(connDone)
+			go func() {
+				select {
+				case <-s.shutdownCtx.Done():
+					_ = c.SetDeadline(time.Now())
+				case <-connDone:
+				}
+			}()
+
 			defer func() {
 				err := conn.close()
 				if err != nil {
